@@ -67,7 +67,7 @@ def violations(w, cfg, scale):
 def gen_descs(ctx):
   rng = ctx.rng
   out = []
-  for _ in range(ctx.n(200, 5000)):
+  for _ in range(ctx.n(400, 5000)):
     cfg = latgen.gen_cfg(rng)
     klass = rng.choice(latgen.KERNEL_CLASSES)
     out.append(dict(cfg=cfg, kclass=klass, w=latgen.gen_kernel(rng, cfg, klass), iters=rng.choice([0, 1, 1, 2, 4])))
